@@ -22,7 +22,8 @@ Definition braid_shapes_generated_stmt : Prop :=
   strand_key_is_priority_id = true /\ strand_ord_reversed = true /\ strand_heap_is_binary_heap = true
   /\ cutoff_is_le_lca = true /\ heads_seeded_through_convergence = true /\ merge_skipped_by_prior = true
   /\ lone_is_len_one = true /\ second_finalize_refused = true
-  /\ bfs_inserts_count_ge_2 = true /\ bfs_cutoff_is_le_lca = true /\ consume_decrements_above_one = true.
+  /\ bfs_inserts_count_ge_2 = true /\ bfs_cutoff_is_le_lca = true /\ consume_decrements_above_one = true
+  /\ disk_block_searched_before_install = true /\ lru_is_first_strictly_lowest = true.
 
 Lemma braid_shapes_generated_proof : braid_shapes_generated_stmt.
 Proof. repeat split; reflexivity. Qed.
